@@ -177,7 +177,9 @@ def gen_as(rng):
     k = rng.choice([0, 0, 0, 1, 1, 2, 3])
     k = min(k, n)
     z = set(rng.sample(range(n), k))
-    Tf = [0.0 if i in z else rng.choice([1, 2, 4, 8, 0.5, 16, 3, 5, 10, 0.25]) for i in range(n)]
+    # (a few tiny but NON-zero time constants: powers of two, so that 1/T stays exact)
+    Tf = [0.0 if i in z else (rng.choice([2.0 ** -30, 2.0 ** -34, 2.0 ** -27]) if rng.random() < 0.06 else
+                              rng.choice([1, 2, 4, 8, 0.5, 16, 3, 5, 10, 0.25])) for i in range(n)]
     return {'kind': 'as', 'n': n, 'm': m, 'fx': fx, 'fy': fy, 'gx': gx, 'gy': gy.ravel().tolist(), 'Tf': Tf}
 
 
